@@ -298,7 +298,7 @@ static int64_t PatternTime(int pattern, int i, int64_t T0)
     case 1: return T0 + 512 * i - (i >= 105 ? 1 : 0);   // the median of the last 11 at height 110 is block 105
     case 2: return T0 + 512 * i + (i >= 105 ? 1 : 0);
     case 3: return T0 + 600 * i;
-    default: return T0 + 512 * i - (i % 2 ? 700 : 0);
+    default: return T0 + 512 * i - (i >= 12 && i % 2 ? 700 : 0); // not monotone
     }
 }
 
@@ -334,7 +334,12 @@ static void RunGrid(int pattern, bool big, unsigned workers, GridTotals& T, cons
         CBlock b = ck::MakeBlock(node, node.tip(), txs, bo);
         L.Add(b);
         auto r = node.ProcessBlock(b);
-        if (!r.pnb_ret || node.tip()->GetBlockHash() != b.GetHash()) throw std::runtime_error("C05 grid base block rejected: " + r.reason);
+        if (!r.pnb_ret || node.tip()->GetBlockHash() != b.GetHash()) {
+            // the base chain is valid by the reference (the funding block at 101 spends a coinbase at depth exactly 100)
+            std::string want = R.ChainError(b.GetHash());
+            if (want.empty()) { vx::violation("C05-grid-valid-base-block-rejected:" + r.reason, "base block at height " + std::to_string(h) + " (pattern " + std::to_string(pattern) + ") is valid by the reference but rejected: " + r.reason, "pattern " + std::to_string(pattern) + " base height " + std::to_string(h)); return; }
+            throw std::runtime_error("C05 grid base block rejected: " + r.reason + " / reference: " + want);
+        }
         coinbase_at[h] = COutPoint(b.vtx[0]->GetHash(), 0);
     }
     const uint256 base = node.tip()->GetBlockHash();
@@ -499,7 +504,7 @@ struct TLSim {
 
     explicit TLSim(ck::Node& node) : n(node), R(L) {}
 
-    void Init()
+    bool Init()
     {
         L.AddGenesis(Params().GenesisBlock());
         const int64_t T0 = Params().GenesisBlock().nTime;
@@ -519,7 +524,10 @@ struct TLSim {
             CBlock b = ck::MakeBlock(n, n.tip(), txs, bo);
             L.Add(b);
             auto r = n.ProcessBlock(b);
-            if (!r.pnb_ret || n.tip()->GetBlockHash() != b.GetHash()) throw std::runtime_error("C05 sim base block rejected: " + r.reason);
+            if (!r.pnb_ret || n.tip()->GetBlockHash() != b.GetHash()) {
+                if (R.ChainError(b.GetHash()).empty()) { vx::violation("C05-sim-valid-base-block-rejected:" + r.reason, "base block at height " + std::to_string(h) + " is valid by the reference but rejected: " + r.reason, "sim base height " + std::to_string(h)); return false; }
+                throw std::runtime_error("C05 sim base block rejected: " + r.reason);
+            }
             cb[h] = COutPoint(b.vtx[0]->GetHash(), 0);
         }
         base_tip = n.tip()->GetBlockHash();
@@ -532,6 +540,7 @@ struct TLSim {
         tx_rh = ck::SpendTx({COutPoint(tx_fund->GetHash(), 0)}, {39990000}, 1, 0);              // one block after the funding block, not in it
         tx_rt = ck::SpendTx({COutPoint(tx_fund->GetHash(), 1)}, {39990000}, SEQ_TYPE | 1, 0);    // MTP must have advanced by 512 s past the MTP before the funding block
         tx_cb = ck::SpendTx({cb[base_h + 1 - 100]}, {50 * COIN - 10000}, 0xffffffff, 0);         // depth 100 exactly at height base_h+1
+        return true;
     }
 
     std::optional<uint256> Select(const std::string& sel)
@@ -733,10 +742,10 @@ int main(int argc, char** argv)
         ck::Node node(o);
         TLSim sim(node);
         sim.kinds = {"empty", "slow", "fund", "fundslow", "h", "t", "rh", "rt", "cb", "fund+rh"};
-        sim.parents = big ? std::vector<std::string>{"t0", "t1", "t2"} : std::vector<std::string>{"t0", "t1"};
+        sim.parents = {"t0", "t1"};
         int depth = big ? 3 : 2;
         sim.max_new_blocks = depth;
-        sim.Init();
+        if (!sim.Init()) return vx::finish();
         if (!hist.empty()) {
             sim.fs.sh = new vx::ForkShared();
             sim.fs.log_fd = 1;
